@@ -57,7 +57,8 @@ Proof.
   destruct a, b; cbn; intro H; try discriminate.
   - apply andb_prop in H as [H1 H2]. apply (list_eqb_eq _ str_eqb_true) in H1.
     apply (list_eqb_eq _ (pair_eqb_eq _ _ str_eqb_true vspec_eqb_eq)) in H2. now subst.
-  - apply andb_prop in H as [H1 H2]. apply Bool.eqb_prop in H1. apply (list_eqb_eq _ str_eqb_true) in H2. now subst.
+  - apply andb_prop in H as [H1 H2]. apply Bool.eqb_prop in H1.
+    apply (list_eqb_eq _ (pair_eqb_eq _ _ str_eqb_true (list_eqb_eq _ zpair_eq))) in H2. now subst.
   - apply andb_prop in H as [H H3]. apply andb_prop in H as [H1 H2].
     apply (list_eqb_eq _ (pair_eqb_eq _ _ str_eqb_true str_eqb_true)) in H1, H2. apply (list_eqb_eq _ sedge_eqs_eq) in H3. now subst.
 Qed.
@@ -65,7 +66,8 @@ Lemma entry_eqs_refl a : entry_eqs a a = true.
 Proof.
   destruct a; cbn.
   - rewrite (list_eqb_refl _ str_eqb_refl). cbn. apply list_eqb_refl. apply pair_eqb_refl; [apply str_eqb_refl|apply vspec_eqb_refl].
-  - rewrite Bool.eqb_reflx. cbn. apply list_eqb_refl, str_eqb_refl.
+  - rewrite Bool.eqb_reflx. cbn. apply list_eqb_refl. apply pair_eqb_refl; [apply str_eqb_refl|].
+    apply list_eqb_refl. apply pair_eqb_refl; [apply str_eqb_refl|apply Z.eqb_refl].
   - rewrite !(list_eqb_refl _ (pair_eqb_refl _ _ str_eqb_refl str_eqb_refl)). cbn. apply list_eqb_refl, sedge_eqs_refl.
 Qed.
 
@@ -96,7 +98,7 @@ Section Guarded.
     exists st', add_to_dict name d st = (name, st') /\ Inv st' E /\ ext st st' /\ assoc name st' = Some d.
   Proof.
     intros HI Hin. exists (set_assoc name d st). split; [|split; [|split]].
-    - unfold add_to_dict. destruct (assoc name st) as [d'|] eqn:Ea; [|reflexivity].
+    - unfold add_to_dict. cbn [free_key key_k]. destruct (assoc name st) as [d'|] eqn:Ea; [|reflexivity].
       rewrite (HE _ _ _ (HI _ _ Ea) Hin), entry_eqs_refl. reflexivity.
     - intros k x. rewrite assoc_set. destruct (str_eqb k name) eqn:Ek; [|apply HI].
       apply str_eqb_eq in Ek. subst k. intro H. injection H as <-. exact Hin.
@@ -108,7 +110,7 @@ Section Guarded.
   Definition ops_entries (l : list (opT * upd)) : list (str * entry) := map (fun ou => (o_name (fst ou), op_entry (fst ou) (snd ou))) l.
 
   Lemma dump_ops_ok : forall l st, Inv st E -> incl (ops_entries l) E ->
-    exists st', dump_ops l st = (map (fun ou => o_name (fst ou)) l, st') /\ Inv st' E /\ ext st st' /\ holds st' (ops_entries l).
+    exists st', dump_ops l st = (map (fun ou => (o_name (fst ou), snd ou)) l, st') /\ Inv st' E /\ ext st st' /\ holds st' (ops_entries l).
   Proof.
     induction l as [|[op u] l IH]; intros st HI Hin.
     - exists st. repeat split; auto using ext_refl, holds_nil.
@@ -126,7 +128,7 @@ Section Guarded.
     intros HI Hin. unfold dump_node, node_entries in *.
     destruct (dump_ops_ok (n_ops nd) st HI) as (st1 & E1 & I1 & X1 & H1); [intros x Hx; apply Hin, in_or_app; now left|].
     rewrite E1.
-    destruct (add_ok (n_name nd) (ENode b (map (fun ou => o_name (fst ou)) (n_ops nd))) st1 I1) as (st2 & E2 & I2 & X2 & A2);
+    destruct (add_ok (n_name nd) (ENode b (map (fun ou => (o_name (fst ou), snd ou)) (n_ops nd))) st1 I1) as (st2 & E2 & I2 & X2 & A2);
       [apply Hin, in_or_app; right; now left|].
     rewrite E2. exists st2. repeat split; auto.
     - eapply ext_trans; eassumption.
@@ -225,88 +227,18 @@ Proof.
   apply holds_app; [eapply holds_ext; eassumption|]. intros k d [Hk|[]]. now injection Hk as <- <-.
 Qed.
 
-(* ---------- an operator written with its overrides merged in, read back without overrides ---------- *)
-Lemma override_nil kv : override [] kv = kv.
-Proof. destruct kv as [k [t x]]. reflexivity. Qed.
-
-Lemma assoc_notin {V} : forall (m : list (str * V)) k, existsb (str_eqb k) (map fst m) = false -> assoc k m = None.
-Proof.
-  induction m as [|[k0 v0] m IH]; intros k H; [reflexivity|]. cbn in *. apply orb_false_elim in H as [H1 H2].
-  rewrite H1. now apply IH.
-Qed.
-
-Lemma override_notin k y : forall vs, existsb (str_eqb k) (map fst vs) = false -> map (override [(k, y)]) vs = vs.
-Proof.
-  induction vs as [|[k0 [t0 x0]] vs IH]; intro H; [reflexivity|]. cbn in H. apply orb_false_elim in H as [H1 H2].
-  cbn [map]. rewrite IH by exact H2. f_equal. unfold override. cbn [fst snd assoc].
-  rewrite str_eqb_sym, H1. reflexivity.
-Qed.
-
-Lemma set_assoc_override : forall vars k y t0 x0, nodupb (map fst vars) = true -> assoc k vars = Some (t0, x0) ->
-  set_assoc k (t0, y) vars = map (override [(k, y)]) vars.
-Proof.
-  induction vars as [|[k0 [t1 x1]] vars IH]; intros k y t0 x0 Hn Ha; [discriminate|].
-  cbn [map fst nodupb] in Hn. apply andb_prop in Hn as [Hn1 Hn2]. apply negb_true_iff in Hn1.
-  cbn [set_assoc assoc map] in *. destruct (str_eqb k k0) eqn:Ek.
-  - apply str_eqb_eq in Ek. subst k0. injection Ha as -> ->. rewrite (override_notin k y vars Hn1).
-    f_equal. unfold override. cbn [fst snd assoc]. now rewrite str_eqb_refl.
-  - f_equal.
-    + unfold override. cbn [fst snd assoc]. rewrite str_eqb_sym, Ek. reflexivity.
-    + eapply IH; eassumption.
-Qed.
-
-Lemma map_fst_override w vars : map fst (map (override w) vars) = map fst vars.
-Proof. rewrite map_map. apply map_ext. now intros [k [t x]]. Qed.
-
-Lemma assoc_map_override w : forall vars k,
-  assoc k (map (override w) vars) =
-  match assoc k vars with Some (t, x) => Some (t, match assoc k w with Some y => y | None => x end) | None => None end.
-Proof.
-  induction vars as [|[k0 [t0 x0]] vars IH]; intros k; [reflexivity|]. cbn [map assoc override fst snd].
-  destruct (str_eqb k k0) eqn:Ek; [|apply IH]. apply str_eqb_eq in Ek. now subst.
-Qed.
-
-Definition const_in (vars : list (str * vspec)) (u : upd) : bool :=
-  forallb (fun kv => match assoc (fst kv) vars with Some _ => true | None => false end) u.
-
-Lemma merge_override : forall u vars, nodupb (map fst vars) = true -> nodupb (map fst u) = true -> const_in vars u = true ->
-  merge_vars vars u = map (override u) vars.
-Proof.
-  unfold merge_vars. induction u as [|[k y] u IH]; intros vars Hv Hu Hc.
-  - cbn [fold_left]. rewrite (map_ext _ (fun kv => kv)) by apply override_nil. now rewrite map_id.
-  - cbn [fold_left fst snd]. cbn [map fst nodupb] in Hu. apply andb_prop in Hu as [Hu1 Hu2]. apply negb_true_iff in Hu1.
-    unfold const_in in Hc. cbn [forallb fst] in Hc. apply andb_prop in Hc as [Hc1 Hc2].
-    destruct (assoc k vars) as [[t0 x0]|] eqn:Ea; try discriminate. cbv beta iota.
-    pose proof (set_assoc_override vars k y t0 x0 Hv Ea) as Hs. unfold vspec in *. rewrite Hs.
-    rewrite IH.
-    + rewrite map_map. apply map_ext. intros [k0 [t1 x1]]. unfold override. cbn [fst snd assoc]. f_equal. f_equal.
-      destruct (str_eqb k0 k) eqn:E0; [|reflexivity]. apply str_eqb_eq in E0. subst k0. now rewrite (assoc_notin u k Hu1).
-    + now rewrite map_fst_override.
-    + exact Hu2.
-    + unfold const_in. rewrite forallb_forall in *. intros kv Hkv. specialize (Hc2 kv Hkv). rewrite assoc_map_override. unfold vspec in *.
-      destruct (assoc (fst kv) vars) as [[t2 x2]|]; try discriminate. reflexivity.
-Qed.
-
-(* node-level guards *)
-Definition G (nd : nodeT) : Prop := forallb op_wf (n_ops nd) = true /\ forallb const_upd (n_ops nd) = true.
-
-Lemma denote_op_merged ou : op_wf ou = true -> const_upd ou = true ->
-  denote_op (mkOp (o_name (fst ou)) (o_eqs (fst ou)) (merge_vars (o_vars (fst ou)) (snd ou)), []) = denote_op ou.
-Proof.
-  intros Hw Hc. unfold op_wf in Hw. apply andb_prop in Hw as [H1 H2]. unfold denote_op. cbn [fst snd o_name o_eqs o_vars].
-  f_equal. rewrite (map_ext _ (fun kv => kv)) by apply override_nil. rewrite map_id. now apply merge_override.
-Qed.
+Definition G (nd : nodeT) : Prop := True.
 
 (* ---------- load ---------- *)
 Section Loaded.
   Variable st : store.
 
-  Definition mk_loaded (ou : opT * upd) : opT := mkOp (o_name (fst ou)) (o_eqs (fst ou)) (merge_vars (o_vars (fst ou)) (snd ou)).
+  Definition mk_loaded (ou : opT * upd) : opT * upd := (mkOp (o_name (fst ou)) (o_eqs (fst ou)) (o_vars (fst ou)), snd ou).
 
   Lemma load_ops_ok : forall l, holds st (map (fun ou => (o_name (fst ou), op_entry (fst ou) (snd ou))) l) ->
-    mapM (load_op st) (map (fun ou => o_name (fst ou)) l) = Some (map mk_loaded l).
+    mapM (fun ku => obind (load_op st (fst ku)) (fun o => Some (o, snd ku))) (map (fun ou => (o_name (fst ou), snd ou)) l) = Some (map mk_loaded l).
   Proof.
-    induction l as [|ou l IH]; intro H; [reflexivity|]. cbn [map mapM].
+    induction l as [|ou l IH]; intro H; [reflexivity|]. cbn [map mapM fst snd].
     unfold load_op at 1. rewrite (H _ _ (or_introl eq_refl)). unfold op_entry. cbn [obind].
     rewrite IH by (intros k d Hi; apply H; now right). reflexivity.
   Qed.
@@ -314,12 +246,12 @@ Section Loaded.
   Lemma load_node_ok b nd : holds st (node_entries b nd) -> G nd ->
     exists nd', load_node b st (n_name nd) = Some nd' /\ denote_node nd' = denote_node nd.
   Proof.
-    intros H [Hw Hc]. unfold node_entries in H. unfold load_node.
-    assert (Hk : assoc (n_name nd) st = Some (ENode b (map (fun ou => o_name (fst ou)) (n_ops nd)))) by (apply H, in_or_app; right; now left).
+    intros H _. unfold node_entries in H. unfold load_node.
+    assert (Hk : assoc (n_name nd) st = Some (ENode b (map (fun ou => (o_name (fst ou), snd ou)) (n_ops nd)))) by (apply H, in_or_app; right; now left).
     rewrite Hk.
     rewrite Bool.eqb_reflx. rewrite load_ops_ok by (intros k d Hi; apply H, in_or_app; now left). cbn [obind].
     eexists. split; [reflexivity|]. unfold denote_node. cbn [n_ops]. rewrite !map_map.
-    apply map_ext_in. intros ou Hou. rewrite forallb_forall in Hw, Hc. cbn [fst snd]. apply denote_op_merged; auto.
+    apply map_ext. intros [[nm eqs vars] u]. reflexivity.
   Qed.
 
   Lemma load_nodes_ok : forall l, holds st (flat_map (fun kn => node_entries false (snd kn)) l) -> (forall kn, In kn l -> G (snd kn)) ->
@@ -382,16 +314,16 @@ Section Loaded.
 End Loaded.
 
 (* ---------- the round trip ---------- *)
-Lemma G_all c : dicts_wf c = true -> const_overrides c = true -> forall nd, In nd (all_nodes c) -> G nd.
-Proof. unfold dicts_wf, const_overrides. rewrite !forallb_forall. intros H1 H2 nd Hi. split; auto. Qed.
+Lemma G_all c : forall nd, In nd (all_nodes c) -> G nd.
+Proof. intros; exact I. Qed.
 
 Lemma tpl_in e t l : In e l -> ed_tpl e = Some t -> In t (flat_map (fun e => match ed_tpl e with Some t => [t] | None => [] end) l).
 Proof. intros Hi Et. apply in_flat_map. exists e. split; [exact Hi|]. rewrite Et. now left. Qed.
 
 Theorem load_dump c : WFy c = true -> option_map denote (roundtrip c) = Some (denote c).
 Proof.
-  unfold WFy. intro H. apply andb_prop in H as [H Hc]. apply andb_prop in H as [Hw Hr].
-  pose proof (G_all c Hw Hc) as HG.
+  unfold WFy. intro Hr.
+  pose proof (G_all c) as HG.
   destruct (dump_pure c Hr) as (st & Ed & Hh). unfold roundtrip. rewrite Ed. cbn [snd].
   unfold circ_entries in Hh. unfold load_circ.
   assert (Hk : assoc (c_name c) st = Some (ECirc (keyed_names f_name (c_subs c)) (keyed_names n_name (own_nodes c)) (map pure_edge (c_edges c))))
@@ -429,6 +361,8 @@ Section Witnesses.
   (* D10c: two variants of one name *)
   Definition w_rename : circ := mkCirc (S "net") [] [(S "a", w_node 24); (S "b", w_node 40)]
     [mkEdge (S "a/opa/r") (S "b/opa/r_in") None [(S "weight", 16%Z)]].
+  Definition w_opa2 : opT := mkOp (S "opa") [S "d/dt * r = -k*r + r_in"] [(S "r", (VOut, 4%Z)); (S "k", (VConst, 40%Z)); (S "r_in", (VIn, 0%Z))].
+  Definition w_rename2 : circ := mkCirc (S "net") [] [(S "a", mkNode (S "n") [(w_opa, [])]); (S "b", mkNode (S "n") [(w_opa2, [])])] [].
   (* D33: three variants *)
   Definition w_three : circ := mkCirc (S "net") [] [(S "a", w_node 24); (S "b", w_node 40); (S "c", w_node 16)] [].
   (* D10d: override of an output variable *)
@@ -473,25 +407,14 @@ Proof.
   congruence.
 Qed.
 
-Theorem load_dump_refuted_rename : exists c, dicts_wf c = true /\ const_overrides c = true /\ variants_le2 c = true /\ ~ load_dump_statement c.
-Proof. exists w_rename. repeat split; try (vm_compute; reflexivity). apply roundtrip_ok_false. vm_compute. reflexivity. Qed.
-Theorem load_dump_refuted_three : exists c, dicts_wf c = true /\ const_overrides c = true /\ variants_le2 c = false /\ ~ load_dump_statement c.
-Proof. exists w_three. repeat split; try (vm_compute; reflexivity). apply roundtrip_ok_false. vm_compute. reflexivity. Qed.
+(* the shared operator with different per-node values now round-trips (one operator dict, values at the nodes) *)
+Theorem load_dump_shared_operator_variants : roundtrip_ok w_rename = true /\ roundtrip_ok w_three = true.
+Proof. repeat split; vm_compute; reflexivity. Qed.
+(* what remains outside the guard: two DIFFERENT operator templates of one name in one circuit *)
+Theorem load_dump_refuted_rename : exists c, no_rename c = false /\ ~ load_dump_statement c.
+Proof. exists w_rename2. split; [vm_compute; reflexivity|]. apply roundtrip_ok_false. vm_compute. reflexivity. Qed.
 Theorem load_dump_nonvacuous : WFy w_ok = true /\ roundtrip_ok w_ok = true /\ List.length (fst (denote w_ok)) = 4.
 Proof. repeat split; vm_compute; reflexivity. Qed.
 
-(* D33 in the model: the second variant's key is handed out again and its dict is overwritten *)
-Theorem add_to_dict_num1_twice : forall name d1 d2 d3 st, assoc name st = Some d1 ->
-  entry_eqs d1 d2 || entry_eqb d1 d2 = false -> entry_eqs d1 d3 || entry_eqb d1 d3 = false ->
-  let (k2, st2) := add_to_dict name d2 st in
-  let (k3, st3) := add_to_dict name d3 st2 in
-  k2 = k3 /\ (str_eqb name (name ++ num1) = false -> assoc k2 st3 = Some d3).
-Proof.
-  intros name d1 d2 d3 st Ha H2 H3. unfold add_to_dict. rewrite Ha, H2.
-  rewrite assoc_set. destruct (str_eqb name (name ++ num1)) eqn:En.
-  - apply str_eqb_eq in En. exfalso. apply (f_equal (@List.length ascii)) in En. rewrite app_length in En. cbn in En. lia.
-  - rewrite Ha, H3. split; [reflexivity|]. intros _. rewrite assoc_set, str_eqb_refl. reflexivity.
-Qed.
-
 Print Assumptions load_dump.
-Print Assumptions load_dump_refuted_three.
+Print Assumptions load_dump_refuted_rename.
